@@ -6,6 +6,7 @@
 import GormModel.Model.Tx
 import GormModel.Lemmas.Tx
 import GormModel.Lemmas.TxRefine
+import GormModel.Lemmas.TxValues
 namespace Gorm
 open Gorm.Tx
 
@@ -46,11 +47,13 @@ theorem C04_no_leak (c : Cfg) (o : Oracle) (ps : List Prog) (db : DB)
   unfold run
   exact ⟨ht, by simp [DB.open, ht]⟩
 
-/-- inside a transaction nothing reaches the committed store and the transaction stays open: every statement of a
-    function body run on a transaction handle (nested blocks of any depth, failing or not, save points, faults) -/
+/-- inside a transaction nothing reaches the committed store — for EVERY function body run on a transaction handle (nested
+    blocks of any depth, failing or not, save points, faults, the transaction ended underneath the function) — and, unless
+    the body ends the transaction underneath its function (`noEndBody`), the transaction stays open -/
 theorem C04_body_isolated (c : Cfg) (o : Oracle) (ps : List Prog) (h : Handle) (db : DB)
     (hp : h.pool.isCommitter = true) (hwf : wfBody true ps = true) :
-    (runBody c o h ps db).1.committed = db.committed ∧ (runBody c o h ps db).1.tx.isSome = db.tx.isSome :=
+    (runBody c o h ps db).1.committed = db.committed ∧
+    (noEndBody ps = true → (runBody c o h ps db).1.tx.isSome = db.tx.isSome) :=
   (runBody_frame c o ps h db (by rw [hp]; exact hwf)).2.1 hp
 
 theorem runChild_blk_root (c : Cfg) (o : Oracle) (h : Handle) (body : List Prog) (out : Out) (tag : Nat) (must : Bool) (db : DB)
@@ -134,10 +137,10 @@ theorem C04_ghosts_monotone (c : Cfg) (o : Oracle) (ps : List Prog) (h : Handle)
     save-point stack is: entries pushed since — auto names generated at a call number ≥ the counter at entry — on top of a
     suffix of the stack at entry. -/
 theorem C04_savepoint_stack (c : Cfg) (o : Oracle) (ps : List Prog) (h : Handle) (db : DB) (t : TxSt)
-    (hp : h.pool.isCommitter = true) (ht : db.tx = some t) :
+    (hp : h.pool.isCommitter = true) (hne : noEndBody ps = true) (ht : db.tx = some t) :
     ∃ t', (runBody c o h ps db).1.tx = some t' ∧
       ∃ new suf, t'.saves = new ++ suf ∧ suf <:+ t.saves ∧ ∀ k s, (SpName.auto k, s) ∈ new → db.calls ≤ k :=
-  runBody_step c o ps h db hp t ht
+  runBody_step c o ps h db hp hne t ht
 
 /-- NESTED BLOCK LOCALITY. On a clean transaction handle with nested transactions enabled, entered with working store `v`
     and save-point stack `S` (auto names in `S` older than the call counter): a nested `Transaction` block — any body, any
@@ -148,14 +151,14 @@ theorem C04_savepoint_stack (c : Cfg) (o : Oracle) (ps : List Prog) (h : Handle)
 theorem C04_nested_local (c : Cfg) (o : Oracle) (h : Handle) (hp : h.pool.isCommitter = true) (he : h.err = [])
     (hdis : (c.dis || h.dis) = false) (db : DB) (v : Store) (S : List (SpName × Store))
     (ht : db.tx = some { cur := v, saves := S }) (hS : ∀ k s, (SpName.auto k, s) ∈ S → k < db.calls)
-    (body : List Prog) (out : Out) (tag : Nat) (must : Bool)
+    (body : List Prog) (out : Out) (tag : Nat) (must : Bool) (hne : noEndBody body = true)
     (hr : (runChild c o h (.blk body out tag must) db).2.2 ≠ .ok)
     (hf : (runChild c o h (.blk body out tag must) db).1.rbFault = false)
     (hh : (runChild c o h (.blk body out tag must) db).2.1.err = []) :
     (runChild c o h (.blk body out tag must) db).1.tx = some { cur := v, saves := (SpName.auto db.calls, v) :: S } ∧
     (runChild c o h (.blk body out tag must) db).2.1 = h ∧
     (runChild c o h (.blk body out tag must) db).1.committed = db.committed :=
-  nested_local c o h hp he hdis db v S ht hS body out tag must hr hf hh
+  nested_local c o h hp he hdis db v S ht hS body out tag must hne hr hf hh
 
 /-- the complementary case: the oracle fails the block's SAVEPOINT — the function is not run, the transaction is untouched,
     the SAVEPOINT error is returned, and the enclosing handle comes back poisoned (the root of finding F18) -/
@@ -188,17 +191,17 @@ theorem C04_nested_disabled (c : Cfg) (o : Oracle) (h : Handle) (hp : h.pool.isC
     (finding F18) and no fault was injected into a ROLLBACK TO, the committed store and the result are exactly those of the
     functional reference `spec`. -/
 theorem C04_refines (c : Cfg) (o : Oracle) (ps : List Prog) (db : DB)
-    (hwf : wfBody false ps = true) (hn : noRbs ps = true) (hd : db.tx = none) (hc : db.calls = 0)
+    (hwf : wfBody false ps = true) (hn : noRbs ps = true) (hne : noEndBody ps = true) (hd : db.tx = none) (hc : db.calls = 0)
     (hs : (run c o ps db).1.stale = false) (hf : (run c o ps db).1.rbFault = false) :
     (run c o ps db).1.committed = (spec c o ps db.committed).1 ∧ (run c o ps db).2 = (spec c o ps db.committed).2 :=
-  run_refines c o ps db hwf hn hd hc hs hf
+  run_refines c o ps db hwf hn hne hd hc hs hf
 
 /-- the same on a fresh database -/
 theorem C04_refines_fresh (c : Cfg) (o : Oracle) (ps : List Prog) (s0 : Store)
-    (hwf : wfBody false ps = true) (hn : noRbs ps = true)
+    (hwf : wfBody false ps = true) (hn : noRbs ps = true) (hne : noEndBody ps = true)
     (hs : (run c o ps { committed := s0 }).1.stale = false) (hf : (run c o ps { committed := s0 }).1.rbFault = false) :
     (run c o ps { committed := s0 }).1.committed = (spec c o ps s0).1 ∧ (run c o ps { committed := s0 }).2 = (spec c o ps s0).2 :=
-  run_refines c o ps { committed := s0 } hwf hn rfl rfl hs hf
+  run_refines c o ps { committed := s0 } hwf hn hne rfl rfl hs hf
 
 /-- non-vacuity of `C04_nested_local`: a two-level nested block with a manual save point and a manual RollbackTo inside,
     returning an error, on a transaction with a non-empty entry stack — all hypotheses hold (and so does the conclusion);
@@ -210,7 +213,7 @@ example :
       [.write (.ins 2) true, .sp 1 true, .write (.ins 3) true, .rb 1 true,
        .blk [.write (.del 1) true] .panic 4 false, .write (.ins 1) false]
     let x := runChild C04_cfg0 (fun _ => false) h (.blk body .retErr 5 true) db
-    x.2.2 ≠ .ok ∧ x.1.rbFault = false ∧ x.2.1.err = [] ∧
+    noEndBody body = true ∧ x.2.2 ≠ .ok ∧ x.1.rbFault = false ∧ x.2.1.err = [] ∧
     x.1.tx = some { cur := [1], saves := [(.auto 3, [1]), (.manual 0, []), (.auto 0, [])] } := by decide +kernel
 
 /-- non-vacuity of `C04_refines`: nested blocks with all outcomes, an ignored failing SavePoint, a derived handle whose
@@ -224,7 +227,7 @@ example :
        .man [.write (.ins 7) true] .commit true,
        .blk [.write (.ins 8) true] .panic 6 false]
     let r := run C04_cfg0 (fun k => k == 3) ps { committed := [] }
-    wfBody false ps = true ∧ noRbs ps = true ∧ r.1.stale = false ∧ r.1.rbFault = false ∧
+    wfBody false ps = true ∧ noRbs ps = true ∧ noEndBody ps = true ∧ r.1.stale = false ∧ r.1.rbFault = false ∧
     r.1.committed = [1, 3, 7] ∧ r.2 = .ok := by decide +kernel
 
 
@@ -232,10 +235,120 @@ example :
 example :
     let x := runChild C04_cfg0 (fun _ => false) { pool := .sqlTx } (.blk [.write (.ins 2) true] .retErr 5 true)
       { committed := [], tx := some { cur := [1], saves := [] }, calls := 1 }
-    x.2.2 ≠ .ok ∧ x.1.rbFault = false ∧ x.2.1.err = [] := by decide
+    noEndBody [.write (.ins 2) true] = true ∧ x.2.2 ≠ .ok ∧ x.1.rbFault = false ∧ x.2.1.err = [] := by decide
 example :
     let ps : List Prog := [.blk [.write (.ins 1) true, .blk [.write (.ins 2) true] .retErr 1 false] .retNil 2 true]
     let r := run C04_cfg0 (fun _ => false) ps { committed := [] }
-    wfBody false ps = true ∧ noRbs ps = true ∧ r.1.stale = false ∧ r.1.rbFault = false ∧ r.1.committed = [1] := by decide
+    wfBody false ps = true ∧ noRbs ps = true ∧ noEndBody ps = true ∧ r.1.stale = false ∧ r.1.rbFault = false ∧ r.1.committed = [1] := by decide
+
+
+/-! ### round 2: values pass through unchanged; transactions ended underneath; Statement.ConnPool after a write -/
+
+/-- PANIC PAYLOADS ARE OPAQUE AND UNCHANGED. The payload of a panic is an opaque value (the model never inspects it: `Res.panic`
+    carries only its identity). Whatever the deferred handlers of `Transaction` do (ROLLBACK, ROLLBACK TO, nothing under
+    DisableNestedTransaction) and whatever the oracle does to those calls: when the function of a block panics with payload `p`
+    — raised by the block itself or by a `must` child at any depth below — the block panics with exactly `p`; the manual
+    caller likewise. -/
+theorem C04_panic_payload_unchanged (o : Oracle) (h h1 : Handle) (name : SpName) (out : Out) (tag : Nat) (fin : Fin)
+    (db : DB) (tx : Handle) (r : Res) (p : Nat) (hf : (fnEnd tx r out tag db).2 = .panic p) :
+    (finishRoot o h out tag (db, tx, r)).2.2 = .panic p ∧
+    (finishNested o h1 name out tag (db, tx, r)).2.2 = .panic p ∧
+    (finishDis h out tag (db, tx, r)).2.2 = .panic p ∧
+    (r = .panic p → (finishMan o h fin (db, tx, r)).2.2 = .panic p) := by
+  have hne : (fnEnd tx r out tag db).2 ≠ .ok := by rw [hf]; simp
+  refine ⟨by rw [finishRoot_res_fail o h out tag db tx r hne, hf],
+    by rw [finishNested_res_fail o h1 name out tag db tx r hne, hf], by rw [finishDis_res, hf], fun hr => ?_⟩
+  rw [hr]
+  exact finishMan_res_fail o h fin db tx _ (by simp)
+
+/-- … and gorm never invents or converts a panic: a program that ends in a panic ends with the payload of one of ITS OWN
+    `panic` outcomes (every depth, every configuration, every oracle, derived handles, transactions ended underneath) — in
+    particular a panic is never turned into an error return and an error never into a panic -/
+theorem C04_panic_from_program (c : Cfg) (o : Oracle) (ps : List Prog) (h : Handle) (db : DB) (p : Nat)
+    (hr : (runBody c o h ps db).2.2 = .panic p) : p ∈ panicTagsBody ps :=
+  runBody_panic c o ps h db p hr
+
+/-- ERROR VALUES RETURNED BY THE FUNCTION ARE UNCHANGED: the block returns exactly the error value `e` its function returned
+    (own `return err` or the error of a `must` child), whatever happens to the deferred ROLLBACK / ROLLBACK TO -/
+theorem C04_fn_error_unchanged (o : Oracle) (h h1 : Handle) (name : SpName) (out : Out) (tag : Nat)
+    (db : DB) (tx : Handle) (r : Res) (e : Err) (hf : (fnEnd tx r out tag db).2 = .err e) :
+    (finishRoot o h out tag (db, tx, r)).2.2 = .err e ∧
+    (finishNested o h1 name out tag (db, tx, r)).2.2 = .err e ∧
+    (finishDis h out tag (db, tx, r)).2.2 = .err e := by
+  have hne : (fnEnd tx r out tag db).2 ≠ .ok := by rw [hf]; simp
+  exact ⟨by rw [finishRoot_res_fail o h out tag db tx r hne, hf],
+    by rw [finishNested_res_fail o h1 name out tag db tx r hne, hf], by rw [finishDis_res, hf]⟩
+
+/-- THE COMMIT ERROR VALUE IS PASSED THROUGH UNCHANGED. When the function of an outermost block returned nil on a clean
+    transaction handle, `Transaction` returns exactly what the driver-level commit returned — nil when COMMIT succeeded, the
+    injected value `[.inj n]` (whatever Go value the fault stands for: sql.ErrTxDone, sql.ErrConnDone, driver.ErrBadConn,
+    context errors … the model cannot tell them apart, so none can be special-cased), `[.txDone]` when the transaction had been
+    ended underneath — and the committed store is the function's working store iff that value is nil. -/
+theorem C04_commit_error_unchanged (o : Oracle) (h : Handle) (out : Out) (tag : Nat) (db : DB) (tx : Handle) (r : Res)
+    (hp : tx.pool.isCommitter = true) (he : tx.err = []) (hok : (fnEnd tx r out tag db).2 = .ok) :
+    (finishRoot o h out tag (db, tx, r)).2.2 = resOf (drvCommit o (fnEnd tx r out tag db).1).2 ∧
+    ((drvCommit o (fnEnd tx r out tag db).1).2 ≠ [] → (finishRoot o h out tag (db, tx, r)).1.committed = db.committed) ∧
+    ((drvCommit o (fnEnd tx r out tag db).1).2 = [] →
+        ∃ t, db.tx = some t ∧ (finishRoot o h out tag (db, tx, r)).1.committed = t.cur) := by
+  have hc := gormCommit_committer o tx (fnEnd tx r out tag db).1 hp
+  rw [he, addError_nil_left] at hc
+  rw [finishRoot_eq_ok o h out tag db tx r hok, hc.2]
+  by_cases hd : (drvCommit o (fnEnd tx r out tag db).1).2 = []
+  · rw [if_neg (by simp [hd])]
+    refine ⟨by simp [resOf, hd], fun hne => absurd hd hne, fun _ => ?_⟩
+    obtain ⟨t, ht, hcm⟩ := drvCommit_ok o _ hd
+    exact ⟨t, by rw [← ht]; simp, by dsimp only; rw [hc.1]; exact hcm⟩
+  · rw [if_pos hd]
+    refine ⟨by simp [resOf, hd], fun _ => ?_, fun h0 => absurd h0 hd⟩
+    dsimp only
+    rw [gormRollback_committed, hc.1, drvCommit_err o _ hd]; simp
+
+/-- ENDED UNDERNEATH ⇒ NOT NIL: if the transaction is already finished when the function of an outermost block returns
+    (Rollback called inside the block, context cancelled and rolled back by database/sql), `Transaction` does not return nil —
+    it returns sql.ErrTxDone (joined to whatever the handle already carried) — and nothing reaches the committed store. -/
+theorem C04_ended_underneath_not_nil (o : Oracle) (h : Handle) (out : Out) (tag : Nat) (db : DB) (tx : Handle) (r : Res)
+    (hp : tx.pool.isCommitter = true) (hd : db.tx = none) (hok : (fnEnd tx r out tag db).2 = .ok) :
+    (finishRoot o h out tag (db, tx, r)).2.2 = .err (addError tx.err [.txDone]) ∧
+    (finishRoot o h out tag (db, tx, r)).2.2 ≠ .ok ∧
+    (finishRoot o h out tag (db, tx, r)).1.committed = db.committed ∧
+    (finishRoot o h out tag (db, tx, r)).1.tx = none := by
+  have hd' : (fnEnd tx r out tag db).1.tx = none := by simpa using hd
+  have hc := gormCommit_committer o tx (fnEnd tx r out tag db).1 hp
+  rw [drvCommit_closed o _ hd'] at hc
+  dsimp only at hc
+  have hne : addError tx.err [.txDone] ≠ [] := addError_ne_nil _ _ (by simp)
+  rw [finishRoot_eq_ok o h out tag db tx r hok, hc.2, if_pos hne]
+  refine ⟨rfl, by simp, ?_, ?_⟩
+  · dsimp only; rw [gormRollback_committed, hc.1]; simp
+  · dsimp only; exact gormRollback_tx_none _ _ (by rw [hc.1]; exact hd')
+
+/-- the same seen from a whole program: `db.Transaction(func(tx) { tx.Create(1); tx.Rollback(); return nil })` returns
+    sql.ErrTxDone, row 1 is not durable, nothing leaks (kernel-checked instance; non-vacuity of the two theorems above) -/
+example :
+    let r := run C04_cfg0 (fun _ => false) [.blk [.write (.ins 1) true, .endtx true] .retNil 0 true] { committed := [] }
+    r.2 = .err [.txDone] ∧ r.1.committed = [] ∧ r.1.tx = none := by decide
+
+/-- STATEMENT.CONNPOOL AFTER A WRITE, inside an explicit transaction: the create/update/delete pipeline (BeginTransaction …
+    CommitOrRollbackTransaction) leaves `Statement.ConnPool` of the instance it ran on exactly as it was — so a chained
+    handle kept in a variable stays on the transaction for its next operation (all flag values, all pools). -/
+theorem C04_write_keeps_tx_pool (skip errNil beginOk : Bool) (s : OpSt)
+    (hc : s.stmtPool.isCommitter = true) (hs : s.started = false) :
+    writeSt skip errNil beginOk s = s := by
+  obtain ⟨sp, cp, st⟩ := s
+  dsimp only at hc hs
+  subst hs
+  cases sp <;> simp [Pool.isCommitter] at hc <;>
+    cases skip <;> cases errNil <;> simp [writeSt, beginTransactionSt, commitOrRollbackSt]
+
+/-- … and outside a transaction, where `Statement.ConnPool` is the handle's own pool, it is put back there (the implicit
+    transaction does not leak into the next operation through the handle) -/
+theorem C04_write_restores_pool (skip errNil beginOk : Bool) (s : OpSt)
+    (hc : s.stmtPool.isCommitter = false) (heq : s.stmtPool = s.cfgPool) (hs : s.started = false) :
+    writeSt skip errNil beginOk s = s := by
+  obtain ⟨sp, cp, st⟩ := s
+  dsimp only at hc heq hs
+  subst hs heq
+  cases sp <;> simp [Pool.isCommitter] at hc <;>
+    cases skip <;> cases errNil <;> cases beginOk <;> simp [writeSt, beginTransactionSt, commitOrRollbackSt]
 
 end Gorm
